@@ -160,8 +160,8 @@ let show_islot (sl : islot) : string =
   "e" ^ b01 s.iex ^ "a" ^ b01 s.iappr ^ "f" ^ b01 s.iinfl ^ "c" ^ b01 s.icreated ^ "x" ^ b01 s.iclosing ^ "b" ^ b01 (s.ib4 <> None) ^ b01 s.ib6
 (* [relay]: case kind ipoer — the access group's DHCPv4 profile is in relay mode.  The model has no relay mode: the steps
    are not predicted; the EXTRACTED Coq monitor judges the implementation's outputs and the expected verdict is "ok" (the
-   property: nothing is handed to a session without an accept).  [relay_known] (variant relayunapproved) prints the monitor's
-   verdict instead, i.e. reproduces a tree that violates it. *)
+   property: nothing is handed to a session without an accept).  [relay_known] (variant relayunapproved = the code before
+   2063a0c, historical) prints the monitor's verdict instead, i.e. reproduces a tree that violates it. *)
 let run_ipoe ?(relay = false) ?(relay_known = false) (rep : bool) (implline : string) (toks : string list) : string =
   match toks with
   | p4s :: p6s :: evs ->
